@@ -63,6 +63,8 @@ M = {
   ("product-widened-late", PD + "row_legalizer.cpp", "    cur_cost += static_cast<long long>(old_pos - cur_pos) * (slope + width);", "    cur_cost += (old_pos - cur_pos) * (slope + width);", V, ["M1"]),
   ("area-in-int", "src/coloquinte.hpp", "  long long area() const { return (long long)width() * (long long)height(); }", "  long long area() const { return width() * height(); }", V, ["M1"]),
   ("cost-narrowed", PD + "abacus_legalizer.cpp", "  long long dist =\n      rowLegalizers_[row].getCost(cellWidth_[cell], cellTargetX_[cell]);", "  int dist =\n      rowLegalizers_[row].getCost(cellWidth_[cell], cellTargetX_[cell]);", V, ["M2"]),
+  ("assert-excludes-shared-sentinel", PD + "place_detailed.cpp", "  assert(cellPred != cellNext || cellPred == -1);", "  assert(cellPred != cellNext);", V, ["AS"]),
+  ("benign-assert-guarded-form", PD + "place_detailed.cpp", "  assert(cellPred != cellNext || cellPred == -1);", "  if (cellPred != -1) {\n    assert(cellPred != cellNext);\n  }", H, []),
   ("capacity-share-in-int", PG + "transportation.cpp", "  DemandType added = missing / nbSinks();", "  int added = missing / nbSinks();", V, ["M2"]),
   ("benign-remainder-in-int", PG + "transportation.cpp", "  assert(missing >= 0LL && missing < nbSinks());", "  int rem = missing % nbSinks();\n  (void)rem;\n  assert(missing >= 0LL && missing < nbSinks());", H, []),
   ("benign-cast-style", PD + "row_legalizer.cpp", "    cur_cost += static_cast<long long>(old_pos - cur_pos) * (slope + width);", "    cur_cost += (long long)(old_pos - cur_pos) * (slope + width);", H, []),
